@@ -232,7 +232,7 @@ def correspondence(ctx):
     common.repo_on_path()
     from props import c01_e2e
     # ---- loads(dumps(v)) and the bare library
-    vals = _values(ctx, "res", ctx.n(4000, 60000))
+    vals = _values(ctx, "res", ctx.n(4000, 30000))
     spec_lines, spec_expect = [], []
     for suite, real_fn in (("res", real_res), ("lib", real_lib)):
         lines, reals, cases = [], [], []
@@ -266,7 +266,7 @@ def correspondence(ctx):
     # ---- loadsCall(dumpsCall(...)): plain calls, batch-shaped calls, kwargs=None
     rng = ctx.sub_rng("call")
     lines, reals, cases = [], [], []
-    for i in range(ctx.n(3000, 40000)):
+    for i in range(ctx.n(3000, 20000)):
         vargs, kwargs = _gen_call(rng, rng.choice([0, 1, 2, 3, 4]))
         tv, tk = V.tree(vargs), V.tree(kwargs)
         toks = " ".join(V.tokens(tv) + V.tokens(tk))
